@@ -14,6 +14,7 @@ API = [("api-counter", {"quick": ["-n", "60"], "thorough": ["-n", "3000"], "sear
        ("api-map", {"quick": ["-n", "100"], "thorough": ["-n", "4000"], "search": ["-n", "1500"]}),
        ("api-list", {"quick": ["-n", "100"], "thorough": ["-n", "4000"], "search": ["-n", "1500"]})]
 PROPS = {
+    "C10": {"slices": CRDT, "trusted": ["Go encoding/json (Marshal/Unmarshal of the snapshot structs) is exercised, not modelled byte by byte: the marshalled JSON is parsed and compared field by field with the model's marshalled form"], "assumptions": ["Document snapshots are not modelled yet"]},
     "C03": {"slices": API, "trusted": [], "assumptions": ["Document is not modelled yet"]},
     "C04": {"slices": [CRDT[2], API[2]], "trusted": [], "assumptions": ["order agreement ACROSS replicas rests on list convergence (C01, list instance not yet proved)"]},
     "C05": {"slices": WIRE, "trusted": SRV_TRUST, "assumptions": ["the composition of the proved ingredients over Net.v is not yet a theorem (C05_statement_list is a definition)"]},
